@@ -312,6 +312,12 @@ where
     Ok(String::new())
 }
 
+/// core::str::slice_error_fail formats a long message (char iteration + Display) before panicking;
+/// this stand-in panics at once.  Same observable behaviour for every property here: a panic.
+fn slice_error_fail_plain(_s: &str, _begin: usize, _end: usize) -> ! {
+    panic!("str slice index out of range or not on a char boundary")
+}
+
 /// A text value over a fixed buffer, with its character count.
 struct Text<'a> {
     s: &'a str,
@@ -336,6 +342,7 @@ impl Deref for Text<'_> {
 #[kani::proof]
 #[kani::unwind(6)]
 #[kani::stub(FormatSpec::format_sign_and_align, fsa_recorder)]
+#[kani::stub(core::str::slice_error_fail, slice_error_fail_plain)]
 fn c18_format_string_truncate() {
     // shape: n <= 2 characters; the first is any Unicode scalar value, the second is ASCII
     let c0: char = kani::any();
